@@ -83,3 +83,8 @@ def next_weekday_after(o, iso_dow):
 def date_str_of_ordinal(o):
     d = date_of_ordinal(o)
     return date_str(d.year, d.month, d.day)
+
+
+def first_match(start_ord, day):
+    """ordinal of the first day >= start_ord whose weekday (Monday = 0) is `day`"""
+    return start_ord + (day - weekday_of_ordinal(start_ord)) % 7
